@@ -76,6 +76,7 @@ func record(args []string) error {
 	statsPath := fs.String("stats", "", "stats output (json)")
 	only := fs.String("types", "", "comma-separated type filter (optional)")
 	small := fs.Bool("small", false, "no long lists/texts")
+	poison := fs.Int("poison", 0, "poisoned mode (1: a refused call before every history; 2: also before every encode/decode)")
 	fs.Parse(args)
 	d, ok := vh.Drivers[*driver]
 	if !ok {
@@ -100,6 +101,7 @@ func record(args []string) error {
 	types := map[string]bool{}
 	ctx := &vh.DriverCtx{G: g, N: *n, TypeFilter: vh.ParseFilter(*only)}
 	ctx.Run = func(ops []vh.Op) error {
+		vh.HistoryBoundary()
 		m := vh.NewMachine()
 		st.Histories++
 		m.Hist = st.Histories
@@ -127,6 +129,7 @@ func record(args []string) error {
 		}
 		return nil
 	}
+	ctx.EnablePoison(*poison, *seed)
 	if err := d(ctx); err != nil {
 		return err
 	}
